@@ -171,10 +171,27 @@ def gen_render_graph(rng, plain=False):
     return ops, n, vids
 
 
+def gen_render_phase2(rng, ops, u, vids):
+    """edits between two renderings of the same universe: a member moved to the end (removed and re-added: same size, new
+    order), a member swapped for a non-member, a new edge between members"""
+    members = list(ops[-1][1])
+    out = []
+    if members:
+        a = rng.choice(members)
+        others = [v for v in vids if v not in members]
+        if others and rng.random() < 0.4:
+            out += [["URV", u, a], ["UAV", u, rng.choice(others)]]
+        else:
+            out += [["URV", u, a], ["UAV", u, a]]
+        if rng.random() < 0.5:
+            out.append(["NE", rng.choice(["KDir", "KUnd"]), rng.choice(members), rng.choice(members)])
+    return out
+
+
 class RenderLeg(Leg):
     imports = RIMPORTS
-    checkfn = "rcheck"
-    case_type = RTYPE
+    checkfn = "rcheck_phases"
+    case_type = "list (" + RTYPE + ")"
     shard = 30
     kinds = ()
 
@@ -187,46 +204,78 @@ class RenderLeg(Leg):
     def generate(self, rng, n):
         for _ in range(n):
             ops, u, vids = gen_render_graph(rng)
-            yield {"ops": ops, "queries": self.queries_for(rng, u)}
+            qs = self.queries_for(rng, u)
+            rng.shuffle(qs)                                   # e.g. a sorted rendering before the unsorted one
+            case = {"ops": ops, "queries": qs, "caching": rng.random() < 0.5}
+            if rng.random() < 0.5:
+                case["ops2"] = gen_render_phase2(rng, ops, u, vids)      # the same universe rendered again after edits
+            yield case
+
+    def _phase(self, w, case):
+        for i, o in enumerate(w.objs):        # attributes for title formats / attribute listings
+            if H.kind_of(o) in H.VERTEX_KINDS and "nm" not in vars(o):
+                o.nm = f"n{i}"
+                if i % 2:
+                    o.tag = i
+        self.decorate(w, case)
+        snap = w.snapshot()
+        before = [dict(vars(o)) for o in w.objs]
+        answers = [run_rquery(w, q) for q in case["queries"]]
+        after = [dict(vars(o)) for o in w.objs]
+        return {"snap": snap, "answers": answers, "unchanged": w.snapshot() == snap and _same_vars(before, after)}
 
     def observe(self, case):
         w = H.World()
         try:
             for op in case["ops"]:
                 w.do(op)
-            for i, o in enumerate(w.objs):        # attributes for title formats / attribute listings
-                if H.kind_of(o) in H.VERTEX_KINDS:
-                    o.nm = f"n{i}"
-                    if i % 2:
-                        o.tag = i
-            self.decorate(w, case)
-            snap = w.snapshot()
-            before = [dict(vars(o)) for o in w.objs]
-            answers = [run_rquery(w, q) for q in case["queries"]]
-            after = [dict(vars(o)) for o in w.objs]
-            return {"snap": snap, "answers": answers, "unchanged": w.snapshot() == snap and _same_vars(before, after)}
+            Vertex.NEIGHBOR_CACHING = bool(case.get("caching"))
+            obs = self._phase(w, case)
+            if case.get("ops2"):
+                for op in case["ops2"]:
+                    w.do(op)
+                obs["phase2"] = self._phase(w, case)
+            return obs
         except H.CaseInvalid:
             return None
         finally:
             w.close()
 
+    # subclasses judge ONE rendering phase (keys snap / answers / unchanged, plus what their observe adds)
+    def phase_oracle(self, case, obs):
+        return []
+
+    def oracle(self, case, obs):
+        if obs is None:
+            return []
+        m = self.phase_oracle(case, obs)
+        if not m and obs.get("phase2"):
+            m = [f"second rendering, after {case['ops2']}: " + x for x in self.phase_oracle(case, obs["phase2"])]
+        return m
+
+    def _term1(self, case, ph):
+        return "(" + H.c_state(ph["snap"]) + ", " + C.clist([f"({c_rq(q)}, {c_rans(a)})" for q, a in zip(case["queries"], ph["answers"])], str) + ")"
+
     def term(self, case, obs):
         if obs is None:
             return None
-        return "(" + H.c_state(obs["snap"]) + ", " + C.clist([f"({c_rq(q)}, {c_rans(a)})" for q, a in zip(case["queries"], obs["answers"])], str) + ")"
+        return C.clist([self._term1(case, ph) for ph in [obs] + ([obs["phase2"]] if obs.get("phase2") else [])], str)
 
     def model_value(self, case, obs):
-        return "ranswers " + self.term(case, obs)
+        return "map ranswers " + self.term(case, obs)
 
     def shrink_candidates(self, case):
         qs = case["queries"]
         if len(qs) > 1:
             for q in qs:
-                yield {"ops": case["ops"], "queries": [q]}
+                yield {**case, "queries": [q]}
+        if case.get("ops2"):
+            yield {k: v for k, v in case.items() if k != "ops2"}
 
     def stats(self, case, obs, acc):
         if obs is None:
             return
+        acc["second_renderings"] = acc.get("second_renderings", 0) + int(bool(obs.get("phase2")))
         for a in obs["answers"]:
             k = a[0] if a[0] != "raise" else "raise:" + a[1]
             acc[k] = acc.get(k, 0) + 1
